@@ -40,7 +40,7 @@ def _doctest_numbers(path):
 
 def valid_numbers(modname, limit=40):
     if modname in _CACHE:
-        return _CACHE[modname][:limit]
+        return _spread(_CACHE[modname], limit)
     mod = importlib.import_module(modname)
     cands = []
     if mod.__doc__:
@@ -50,7 +50,8 @@ def valid_numbers(modname, limit=40):
         if f is not None and f.__doc__:
             cands += _literals(f.__doc__)
     short = modname[len('stdnum.'):]
-    for p in glob.glob(os.path.join(front.REPO, 'tests', 'test_%s.doctest' % short)):
+    for p in sorted(set(glob.glob(os.path.join(front.REPO, 'tests', 'test_%s.doctest' % short)) +
+                        glob.glob(os.path.join(front.REPO, 'tests', 'test_%s.doctest' % short.replace('.', '_'))))):
         cands += _doctest_numbers(p)
     seen = set()
     out = []
@@ -67,7 +68,15 @@ def valid_numbers(modname, limit=40):
                 continue
     out.sort(key=lambda s: (len(s) > 40, s))
     _CACHE[modname] = out
-    return out[:limit]
+    return _spread(out, limit)
+
+
+def _spread(out, limit):
+    """at most `limit` numbers, evenly spread over the sorted corpus (the first ones alone tend to look alike)"""
+    if len(out) <= limit:
+        return list(out)
+    step = len(out) / float(limit)
+    return [out[int(i * step)] for i in range(limit)]
 
 
 _SYNTH = {}
